@@ -34,7 +34,7 @@ VERIF = Path(__file__).resolve().parent.parent
 LEAN = VERIF / "lean"
 REPO = Path(os.environ.get("VERIF_REPO", "/repo")).resolve()
 SRC = REPO / "src"
-EVIDENCE = VERIF / "evidence"
+EVIDENCE = Path(os.environ.get("VERIF_EVIDENCE", str(VERIF / "evidence")))
 REPLAYS = EVIDENCE / "replays"
 FINDINGS = VERIF / "findings"
 CACHE = VERIF / ".cache"
